@@ -195,6 +195,26 @@ theorem iter_halted (fs : FS) (n : Nat) (srcs : List Source) (out : List Tok) :
   | zero => rfl
   | succ n ih => simp [iter, step_halted, ih]
 
+theorem step_not_running (fs : FS) (st : St) (h : st.status ≠ .running) : step fs st = st := by
+  obtain ⟨srcs, out, status⟩ := st
+  cases status <;> simp_all [step]
+
+theorem iter_not_running (fs : FS) (n : Nat) (st : St) (h : st.status ≠ .running) : iter fs n st = st := by
+  induction n with
+  | zero => rfl
+  | succ n ih => simp [iter, step_not_running fs st h, ih]
+
+theorem iterFast_eq_iter (fs : FS) : ∀ (n : Nat) (st : St), iterFast fs n st = iter fs n st := by
+  intro n
+  induction n with
+  | zero => intro st; rfl
+  | succ n ih =>
+    intro st
+    by_cases h : st.status = .running
+    · simp [iterFast, iter, h, ih]
+    · simp only [iterFast, h, if_false]
+      exact (iter_not_running fs (n + 1) st h).symm
+
 /-- The whole run of a well-formed program. -/
 theorem run_wf (fs : FS) (d : Nat) (main : File) (hd : d ≤ 99) (hwf : WF fs d main = true) :
     ∃ N, ∀ fuel, N ≤ fuel → run fs fuel main = .ok (inlineToks false fs d main) := by
@@ -519,59 +539,84 @@ end C19
 
 namespace C19
 
-/-- An operation on which the model and TeX cannot differ: no `\openin` of an empty file and
-no `\read` that leaves its stream without a further real line. -/
-def safeOp (rfs : List (Nat × List TLine)) (st : RSt) (op : Op) : Bool :=
+/-- Every line that the unrepaired lexer had already started was started under the
+`\endlinechar` now in force (then finding C19-d does not show). -/
+def freshSlots (e : Elc) (slots : List Slot) : Bool :=
+  slots.all (fun s => match s.loaded with | none => true | some l => l == attach e s.raw)
+
+/-- An operation on which the model and TeX cannot differ: no `\openin` of an empty file, and
+no `\read` that leaves its stream without a further real line or fails. -/
+def safeOp (rfs : List (Nat × List RawLine)) (st : RSt) (op : Op) : Bool :=
   match op with
   | .openin _ f => !(lookup rfs f == some [])
-  | .read n _ =>
+  | .read _ n _ =>
     match takeFile st.streams n with
-    | some ls => match readFile ls 0 [] with
-      | .ok _ (some _) => true
-      | _ => false
+    | some slots =>
+      (match readFile (slots.map (mat true st.elc)) 0 [] with
+        | .ok _ (some _) => true
+        | _ => false)
     | none => true
   | _ => true
 
-def safeRun (rfs : List (Nat × List TLine)) (st : RSt) : List Op → Bool
+def safeRun (rfs : List (Nat × List RawLine)) (st : RSt) : List Op → Bool
   | [] => true
   | op :: r => safeOp rfs st op && safeRun rfs (opStep false rfs st op) r
 
 /-- No stream is open on zero lines. -/
 def NoEmptyStream (st : RSt) : Prop := ∀ x ∈ st.streams, x ≠ some []
 
-theorem readFile_some_ne_nil (ls : List TLine) (toks : List Tok) (rem : List TLine)
-    (h : readFile ls 0 [] = .ok toks (some rem)) : rem ≠ [] := by
-  obtain ⟨_, taken, rest, _, hrem, _⟩ := readFile_spec ls 0 [] rfl toks (some rem) h
-  intro hnil
-  subst hnil
+theorem readFile_some_suffix (ls : List TLine) (toks : List Tok) (rem : List TLine)
+    (h : readFile ls 0 [] = .ok toks (some rem)) : rem ≠ [] ∧ rem.length ≤ ls.length := by
+  obtain ⟨_, taken, rest, hsplit, hrem, _⟩ := readFile_spec ls 0 [] rfl toks (some rem) h
   cases rest with
   | nil => simp at hrem
-  | cons a b => simp at hrem
+  | cons a b =>
+    simp at hrem
+    subst hrem
+    exact ⟨by simp, by simp [hsplit]⟩
 
-theorem noEmpty_set (streams : List (Option (List TLine))) (n : Nat) (v : Option (List TLine))
+theorem map_mat_fresh (e : Elc) : ∀ (slots : List Slot), freshSlots e slots = true →
+    slots.map (mat false e) = slots.map (mat true e) := by
+  intro slots
+  induction slots with
+  | nil => intro _; rfl
+  | cons s r ih =>
+    intro h
+    simp only [freshSlots, List.all_cons, Bool.and_eq_true] at h
+    have hr : freshSlots e r = true := h.2
+    simp only [List.map_cons, ih hr]
+    obtain ⟨loaded, raw⟩ := s
+    cases loaded with
+    | none => simp [mat]
+    | some l =>
+      have : l = attach e raw := by simpa using h.1
+      simp [mat, this]
+
+theorem afterRead_ne_nil (e : Elc) (slots : List Slot) (k : Nat) (hk : 1 ≤ k) (hle : k ≤ slots.length) :
+    afterRead e slots k ≠ [] := by
+  simp only [afterRead]
+  cases hd : slots.drop (slots.length - k) with
+  | nil =>
+    have := congrArg List.length hd
+    simp at this
+    omega
+  | cons h t => simp
+
+theorem noEmpty_set (streams : List (Option (List Slot))) (n : Nat) (v : Option (List Slot))
     (h : ∀ x ∈ streams, x ≠ some []) (hv : v ≠ some []) : ∀ x ∈ streams.set n v, x ≠ some [] := by
   intro x hx
   cases List.mem_or_eq_of_mem_set hx with
   | inl h1 => exact h x h1
   | inr h1 => rw [h1]; exact hv
 
-theorem takeFile_mem (streams : List (Option (List TLine))) (n : Int) (ls : List TLine)
-    (h : takeFile streams n = some ls) : some ls ∈ streams := by
-  simp only [takeFile] at h
-  split at h
-  · cases h
-  · rw [List.getD_eq_getElem?_getD] at h
-    cases hg : streams[n.toNat]? with
-    | none => simp [hg] at h
-    | some v =>
-      simp [hg] at h
-      subst h
-      exact List.mem_of_getElem? hg
+theorem defMacro_streams (g : Bool) (x : Nat) (toks : List Tok) (st : RSt) :
+    (defMacro g x toks st).streams = st.streams := by
+  cases g <;> simp [defMacro]
 
-theorem opStep_agree (rfs : List (Nat × List TLine)) (st : RSt) (op : Op)
+theorem opStep_agree (rfs : List (Nat × List RawLine)) (st : RSt) (op : Op)
     (hinv : NoEmptyStream st) (hsafe : safeOp rfs st op = true) :
     opStep false rfs st op = opStep true rfs st op ∧ NoEmptyStream (opStep false rfs st op) := by
-  obtain ⟨streams, term, macros, out, status⟩ := st
+  obtain ⟨streams, term, macros, saved, elc, out, status⟩ := st
   cases status with
   | running =>
     cases op with
@@ -583,12 +628,12 @@ theorem opStep_agree (rfs : List (Nat × List TLine)) (st : RSt) (op : Op)
         | none => simp [opStep, hn, hl]; exact noEmpty_set streams n none hinv (by simp)
         | some l =>
           have hne : l ≠ [] := by intro h; subst h; simp [hl] at hsafe
-          have he : ensureNewline l = l := by
+          have he : rawEnsureNewline l = l := by
             cases l with
             | nil => exact absurd rfl hne
-            | cons a b => simp [ensureNewline]
+            | cons a b => simp [rawEnsureNewline]
           simp [opStep, hn, hl, he]
-          exact noEmpty_set streams n (some l) hinv (by simpa using hne)
+          exact noEmpty_set streams n _ hinv (by simpa using hne)
     | closein n =>
       by_cases hn : n ≥ numStreams
       · simp [opStep, hn]; exact hinv
@@ -598,31 +643,51 @@ theorem opStep_agree (rfs : List (Nat × List TLine)) (st : RSt) (op : Op)
       · simp [opStep, hn]; exact hinv
       · simp [opStep, hn]; exact hinv
     | use x => simp [opStep]; exact hinv
-    | read n x =>
+    | setElc e => simp [opStep]; exact hinv
+    | bgroup => simp [opStep]; exact hinv
+    | egroup =>
+      cases saved with
+      | nil => simp [opStep]; exact hinv
+      | cons m r => simp [opStep]; exact hinv
+    | read g n x =>
       simp only [safeOp] at hsafe
       cases ht : takeFile streams n with
       | none =>
         simp only [opStep, ht]
-        cases readTerm term 0 [] with
+        cases readTerm (term.map (attach elc)) 0 [] with
         | exhausted => exact ⟨trivial, hinv⟩
-        | ok toks term' => exact ⟨trivial, hinv⟩
-      | some ls =>
+        | ok toks term' =>
+          refine ⟨trivial, ?_⟩
+          intro y hy
+          rw [defMacro_streams] at hy
+          exact hinv y hy
+      | some slots =>
         simp only [ht] at hsafe
-        cases hr : readFile ls 0 [] with
+        cases hr : readFile (slots.map (mat true elc)) 0 [] with
         | unmatched => simp [hr] at hsafe
         | ok toks rem =>
           cases rem with
           | none => simp [hr] at hsafe
           | some rem =>
-            have htex := readFile_tex_open ls 0 [] toks rem hr
-            simp [opStep, ht, hr, htex]
-            exact noEmpty_set streams n.toNat (some rem) hinv
-              (by simpa using readFile_some_ne_nil ls toks rem hr)
+            have htex := readFile_tex_open _ 0 [] toks rem hr
+            obtain ⟨hne, hle⟩ := readFile_some_suffix _ toks rem hr
+            simp only [opStep, ht, hr, htex, if_true, Bool.false_eq_true, if_false, Option.map_some]
+            refine ⟨trivial, ?_⟩
+            intro y hy
+            rw [defMacro_streams] at hy
+            refine noEmpty_set streams n.toNat _ hinv ?_ y hy
+            have h1 : 1 ≤ rem.length := by
+              cases rem with
+              | nil => exact absurd rfl hne
+              | cons a b => simp
+            have := afterRead_ne_nil elc slots rem.length h1 (by simpa using hle)
+            simpa using this
   | badStream => simp [opStep]; exact hinv
   | unmatched => simp [opStep]; exact hinv
   | termExhausted => simp [opStep]; exact hinv
+  | badGroup => simp [opStep]; exact hinv
 
-theorem foldl_agree (rfs : List (Nat × List TLine)) : ∀ (ops : List Op) (st : RSt),
+theorem foldl_agree (rfs : List (Nat × List RawLine)) : ∀ (ops : List Op) (st : RSt),
     NoEmptyStream st → safeRun rfs st ops = true →
     ops.foldl (opStep false rfs) st = ops.foldl (opStep true rfs) st := by
   intro ops
@@ -636,7 +701,7 @@ theorem foldl_agree (rfs : List (Nat × List TLine)) : ∀ (ops : List Op) (st :
     rw [← he]
     exact ih _ hinv' hsafe.2
 
-theorem initR_noEmpty (term : List TLine) : NoEmptyStream (initR term) := by
+theorem initR_noEmpty (term : List RawLine) : NoEmptyStream (initR term) := by
   intro x hx
   simp [initR, List.mem_replicate] at hx
   simp [hx]
